@@ -56,10 +56,14 @@ class MgrProp(core.Prop):
         for i in range(nrand):
             kind = rng.randrange(3)
             shuffle = kind == 0 and rng.random() < 0.4
-            script = mgr.gen_script(rng)
+            script = mgr.gen_script(rng, allow_big=True)
             tape = [rng.randrange(1000) for _ in range(rng.randint(0, 40))] if shuffle else []
-            sess = mgr.gen_history(rng, kind, shuffle, script, tape, max_ops=rng.randint(2, 14),
-                                   episodes=rng.randint(1, 3))
+            long = script["n"] >= 11 or rng.random() < 0.03       # a few long histories: 50+ steps, 4+ episodes
+            if long and shuffle:
+                tape = [rng.randrange(1000) for _ in range(600)]
+            sess = mgr.gen_history(rng, kind, shuffle, script, tape,
+                                   max_ops=rng.randint(40, 80) if long else rng.randint(2, 14),
+                                   episodes=rng.randint(3, 6) if long else rng.randint(1, 3))
             yield self._case(kind, shuffle, script, tape, sess)
 
     # -- verdict ----------------------------------------------------------------------------
